@@ -13,3 +13,5 @@ check("C13", "harness/c13_constants.cxx", workers=(2, 4), wall=(5, 30),
       title="Lexicon constants are distinct, correctly spelled, self-describing, process-wide")
 check("C03", "harness/c03_words.cxx", workers=(8, 16), wall=(20, 600),
       title="words are interned; content preserved")
+check("C07", "harness/c07_scopes.cxx", workers=(8, 16), wall=(20, 600),
+      title="scopes, overload sets and declaration sets are mutually consistent")
